@@ -144,6 +144,11 @@ def check_case(run, case, tier='quick'):
             if r.stdout_missing:
                 run.violation(f'{len(r.stdout_missing)} guess(es) handed to print_guess never reached standard output (they were written somewhere else)', case,
                               observed=r.stdout_missing[:5]); return
+            # what was written are the guesses of the stream: all of them after a status / help request, a prefix after a quit
+            if r.exc is None and (r.guesses != Ug[:len(r.guesses)] or (act != 'q' and len(r.guesses) != len(Ug))):
+                k = next((i for i, (a, b) in enumerate(zip(r.guesses, Ug)) if a != b), min(len(r.guesses), len(Ug)))
+                run.violation(f'a {act!r} request at yield point {p} (helper held: {hold}): the lines written are not the guess stream ({len(r.guesses)} lines, stream {len(Ug)}; first difference at line {k + 1})',
+                              case, observed=r.guesses[max(0, k - 2):k + 3], expected=Ug[max(0, k - 2):k + 3]); return
         # ---- the process boundary: stdout bytes == the stream
         ref = ('\n'.join(Ug) + '\n').encode('utf-8')
         picks = [None] + rng.sample(Ns, min(len(Ns), SPAWNS[tier] - 1))
